@@ -1,2 +1,480 @@
-(* Proofs/SmtextProofsB.v *)
+(* Proofs/SmtextProofsB.v — ReadNCBI on every layout of a table. *)
 From Bio Require Import Base.
+From Bio.Model Require Import Smtext.
+From Bio.Spec Require Import SmtextSpec.
+From Bio.Proofs Require Import SmtextProofs.
+
+(* ---- fields --------------------------------------------------------------------- *)
+Lemma lws_space : forall b, lws b -> is_space b = true.
+Proof. intros b [-> | [-> | [-> | -> ]]]; reflexivity. Qed.
+
+Lemma lws_nolf : forall l, Forall lws l -> nolf l.
+Proof.
+  intros l H. eapply Forall_impl; [|exact H].
+  intros b [-> | [-> | [-> | -> ]]]; discriminate.
+Qed.
+
+Lemma nonspace_nolf : forall l, Forall nonspace l -> nolf l.
+Proof.
+  intros l H. eapply Forall_impl; [|exact H].
+  intros b Hb ->. discriminate Hb.
+Qed.
+
+Lemma fields_space : forall c r, is_space c = true -> fields (c :: r) = fields r.
+Proof.
+  intros c r H. unfold fields. cbn [fields_go]. destruct (fields_go r) as [cur fs].
+  rewrite H. reflexivity.
+Qed.
+
+Lemma fields_go_space : forall c r, is_space c = true -> fields_go (c :: r) = ([], fields r).
+Proof.
+  intros c r H. unfold fields. cbn [fields_go]. destruct (fields_go r) as [cur fs].
+  rewrite H. reflexivity.
+Qed.
+
+Lemma fields_spaces : forall w r, Forall lws w -> fields (w ++ r) = fields r.
+Proof.
+  induction w as [|c w IH]; intros r H; cbn [app]; auto.
+  inversion H; subst. rewrite fields_space by (apply lws_space; assumption). auto.
+Qed.
+
+(* the string is empty or starts with a space *)
+Definition sp_start (r : bytes) : Prop :=
+  match r with [] => True | c :: _ => is_space c = true end.
+
+Lemma fields_go_sp_start : forall r, sp_start r -> fields_go r = ([], fields r).
+Proof.
+  intros [|c r] H.
+  - reflexivity.
+  - cbn [sp_start] in H. unfold fields. cbn [fields_go]. destruct (fields_go r) as [cur fs].
+    rewrite H. reflexivity.
+Qed.
+
+Lemma fields_go_run : forall t r, Forall nonspace t ->
+  fields_go (t ++ r) = (t ++ fst (fields_go r), snd (fields_go r)).
+Proof.
+  induction t as [|c t IH]; intros r H; cbn [app].
+  - destruct (fields_go r); reflexivity.
+  - inversion H as [|? ? Hc Ht]; subst. cbn [fields_go]. rewrite IH by assumption.
+    unfold nonspace in Hc. rewrite Hc. reflexivity.
+Qed.
+
+Lemma fields_token : forall t r, token t -> sp_start r -> fields (t ++ r) = t :: fields r.
+Proof.
+  intros t r [Hne Hns] Hr. unfold fields at 1. rewrite fields_go_run by assumption.
+  rewrite (fields_go_sp_start r Hr). cbn [fst snd]. rewrite app_nil_r.
+  destruct t; [contradiction | reflexivity].
+Qed.
+
+Lemma toks_nil_inv : forall body, Toks [] body -> body = [].
+Proof. intros body H; inversion H; reflexivity. Qed.
+
+Lemma fields_toks : forall ts body, Toks ts body -> fields body = ts.
+Proof.
+  intros ts body H; induction H as [|t ts w rest Ht Hw Hsep HT IH].
+  - reflexivity.
+  - rewrite fields_token; [|exact Ht|].
+    + rewrite fields_spaces by assumption. rewrite IH. reflexivity.
+    + destruct w as [|c w].
+      * destruct ts as [|t' ts'].
+        -- apply toks_nil_inv in HT. subst. exact I.
+        -- exfalso. apply Hsep; [discriminate | reflexivity].
+      * inversion Hw; subst. cbn [app sp_start]. apply lws_space; assumption.
+Qed.
+
+Lemma toks_nolf : forall ts body, Toks ts body -> nolf body.
+Proof.
+  intros ts body H; induction H as [|t ts w rest [_ Ht] Hw Hsep HT IH].
+  - constructor.
+  - unfold nolf. rewrite !Forall_app. repeat split.
+    + apply nonspace_nolf; assumption.
+    + apply lws_nolf; assumption.
+    + exact IH.
+Qed.
+
+(* the Scanner's CR stripping never changes the fields *)
+Lemma fields_go_drop_cr : forall x, fields_go (drop_cr x) = fields_go x.
+Proof.
+  induction x as [|c x IH].
+  - reflexivity.
+  - destruct x as [|d r].
+    + cbn [drop_cr]. destruct (c =? 13) eqn:E.
+      * apply N.eqb_eq in E; subst. reflexivity.
+      * reflexivity.
+    + change (drop_cr (c :: d :: r)) with (c :: drop_cr (d :: r)).
+      cbn [fields_go] in *. rewrite IH. reflexivity.
+Qed.
+
+Lemma fields_drop_cr : forall x, fields (drop_cr x) = fields x.
+Proof. intros x; unfold fields. rewrite fields_go_drop_cr. reflexivity. Qed.
+
+Lemma skip_line_drop_cr : forall l, NotSkipped l -> skip_line (drop_cr l) = false.
+Proof.
+  intros l [H1 [H2 H3]]. destruct l as [|c [|d r]].
+  - contradiction.
+  - cbn [drop_cr]. destruct (c =? 13) eqn:E.
+    + apply N.eqb_eq in E; subst. contradiction.
+    + cbn [skip_line hd] in *. apply N.eqb_neq; exact H3.
+  - change (drop_cr (c :: d :: r)) with (c :: drop_cr (d :: r)).
+    cbn [skip_line hd] in *. apply N.eqb_neq; exact H3.
+Qed.
+
+Lemma too_long_short : forall l, short l -> too_long l = false.
+Proof. intros l H. unfold too_long, short in *. apply N.leb_gt. exact H. Qed.
+
+(* ---- a line carrying tokens ------------------------------------------------------ *)
+Lemma line_of_fields : forall ts l, LineOf ts l -> fields l = ts.
+Proof.
+  intros ts l [lead [body [-> [Hl [HT _]]]]].
+  rewrite fields_spaces by assumption. apply fields_toks; exact HT.
+Qed.
+
+Lemma line_of_nolf : forall ts l, LineOf ts l -> nolf l.
+Proof.
+  intros ts l [lead [body [-> [Hl [HT _]]]]]. unfold nolf. rewrite Forall_app. split.
+  - apply lws_nolf; assumption.
+  - eapply toks_nolf; eassumption.
+Qed.
+
+Lemma line_of_not_skipped : forall ts l, LineOf ts l -> NotSkipped l.
+Proof.
+  intros ts l H. pose proof (line_of_fields ts l H) as Hf.
+  destruct H as [lead [body [E [Hl [HT [Hne [Hh Hs]]]]]]].
+  repeat split.
+  - intros ->. cbn in Hf. congruence.
+  - intros ->. cbn in Hf. congruence.
+  - exact Hh.
+Qed.
+
+Definition line_item (p : bytes) : item bytes :=
+  if too_long p then ErrItem else Rec (drop_cr p).
+
+(* what reading a short, non-skipped line does: it only looks at the fields *)
+Lemma read_step_line : forall o l s, short l -> NotSkipped l ->
+  read_step o (Ok s) (line_item l) =
+  match snd s with
+  | [] => obind (header_chars (fields l)) (fun cs => Ok (fst s, cs))
+  | _ :: _ => obind (read_row o (snd s) (fields l) (fst s)) (fun m' => Ok (m', snd s))
+  end.
+Proof.
+  intros o l s Hs Hn. unfold line_item. rewrite too_long_short by assumption.
+  cbn [read_step obind]. unfold read_line.
+  rewrite skip_line_drop_cr by assumption. rewrite fields_drop_cr. reflexivity.
+Qed.
+
+Lemma read_step_skip : forall o l s, CommentOrEmpty l ->
+  read_step o (Ok s) (line_item l) = Ok s.
+Proof.
+  intros o l s [H Hs]. unfold line_item. rewrite too_long_short by assumption.
+  cbn [read_step obind]. unfold read_line.
+  destruct H as [->|[->|[r [-> Hr]]]].
+  - reflexivity.
+  - reflexivity.
+  - destruct r as [|d r'].
+    + reflexivity.
+    + change (drop_cr (35 :: d :: r')) with (35 :: drop_cr (d :: r')). reflexivity.
+Qed.
+
+Lemma fields_blank : forall l, Forall lws l -> fields l = [].
+Proof.
+  intros l H. rewrite <- (app_nil_r l). rewrite fields_spaces by assumption. reflexivity.
+Qed.
+
+Lemma read_step_pre : forall o l m, PreLine l ->
+  read_step o (Ok (m, [])) (line_item l) = Ok (m, []).
+Proof.
+  intros o l m [H|[Hb Hs]].
+  - apply read_step_skip; exact H.
+  - unfold line_item. rewrite too_long_short by assumption.
+    cbn [read_step obind]. unfold read_line.
+    destruct (skip_line (drop_cr l)); [reflexivity|].
+    cbn [snd fst]. rewrite fields_drop_cr, fields_blank by assumption. reflexivity.
+Qed.
+
+(* ---- header ----------------------------------------------------------------------- *)
+Lemma header_chars_labels : forall cols,
+  header_chars (map (fun c => [c]) cols) = Ok (map lab cols).
+Proof.
+  induction cols as [|c cols IH]; cbn [map header_chars].
+  - reflexivity.
+  - rewrite IH. unfold extract_single_char, lab. destruct (c =? 42); reflexivity.
+Qed.
+
+Lemma read_step_header : forall o cols l m, HeaderLine cols l ->
+  read_step o (Ok (m, [])) (line_item l) = Ok (m, map lab cols).
+Proof.
+  intros o cols l m [Hne [Hns HL]].
+  rewrite read_step_line.
+  - cbn [snd fst]. rewrite (line_of_fields _ _ HL). rewrite header_chars_labels. reflexivity.
+  - destruct HL as [? [? [? [? [? [? [? ?]]]]]]]; assumption.
+  - eapply line_of_not_skipped; eassumption.
+Qed.
+
+(* ---- rows -------------------------------------------------------------------------- *)
+Lemma set_row_ok : forall o c cols xs ts m,
+  Forall2 (ScoreTok o) xs ts -> length xs = length cols ->
+  set_row o c (map lab cols) ts m =
+  Ok (fold_left setf (map (fun cx => ((c, lab (fst cx)), snd cx)) (combine cols xs)) m).
+Proof.
+  intros o c cols; induction cols as [|d cols IH]; intros xs ts m HF HL.
+  - destruct xs; [|discriminate]. inversion HF; subst. reflexivity.
+  - destruct xs as [|x xs]; [discriminate|]. inversion HF as [|? t ? ts' [_ Hp] HF']; subst.
+    cbn [map set_row combine fold_left]. rewrite Hp.
+    rewrite (IH xs ts'); [reflexivity | assumption | cbn in HL; congruence].
+Qed.
+
+Lemma forall2_length : forall {A B} (R : A -> B -> Prop) l1 l2,
+  Forall2 R l1 l2 -> length l1 = length l2.
+Proof. intros A B R l1 l2 H; induction H; cbn; congruence. Qed.
+
+Lemma read_row_ok : forall o cols r xs ts m,
+  Forall2 (ScoreTok o) xs ts -> length xs = length cols ->
+  read_row o (map lab cols) ([r] :: ts) m = Ok (fold_left setf (row_pairs cols (r, xs)) m).
+Proof.
+  intros o cols r xs ts m HF HL. unfold read_row.
+  cbn [length]. rewrite map_length. rewrite <- (forall2_length _ _ _ HF), HL.
+  rewrite Nat.eqb_refl. cbn [negb].
+  assert (E : extract_single_char [r] = Ok (lab r)).
+  { unfold extract_single_char, lab. destruct (r =? 42); reflexivity. }
+  rewrite E. cbn [obind]. rewrite (set_row_ok o (lab r) cols xs ts) by assumption. reflexivity.
+Qed.
+
+Lemma read_step_row : forall o cols r xs ts l m,
+  cols <> [] -> Forall2 (ScoreTok o) xs ts -> length xs = length cols ->
+  LineOf ([r] :: ts) l ->
+  read_step o (Ok (m, map lab cols)) (line_item l) =
+  Ok (fold_left setf (row_pairs cols (r, xs)) m, map lab cols).
+Proof.
+  intros o cols r xs ts l m Hne HF HL HLine.
+  rewrite read_step_line.
+  - cbn [snd fst]. destruct cols as [|c0 cols']; [contradiction|].
+    change (map lab (c0 :: cols')) with (lab c0 :: map lab cols') at 1.
+    cbv iota. rewrite (line_of_fields _ _ HLine).
+    rewrite (read_row_ok o (c0 :: cols') r xs ts) by assumption. reflexivity.
+  - destruct HLine as [? [? [? [? [? [? [? ?]]]]]]]; assumption.
+  - eapply line_of_not_skipped; eassumption.
+Qed.
+
+Lemma read_body : forall o cols rows body, cols <> [] ->
+  Body o rows body ->
+  Forall (fun r => length (snd r) = length cols) rows ->
+  forall m,
+  fold_left (read_step o) (map line_item body) (Ok (m, map lab cols)) =
+  Ok (fold_left setf (flat_map (row_pairs cols) rows) m, map lab cols).
+Proof.
+  intros o cols rows body Hne HB; induction HB as [|rows l ls Hs HB IH|r xs ts rows l ls Hr HF HL HB IH];
+    intros HR m; cbn [map fold_left flat_map].
+  - reflexivity.
+  - rewrite read_step_skip by assumption. apply IH; assumption.
+  - inversion HR as [|? ? Hlen HR']; subst. cbn [snd] in Hlen.
+    rewrite (read_step_row o cols r xs ts) by assumption.
+    rewrite IH by assumption. rewrite fold_left_app. reflexivity.
+Qed.
+
+Lemma read_pre : forall o pre m, Forall PreLine pre ->
+  fold_left (read_step o) (map line_item pre) (Ok (m, [])) = Ok (m, []).
+Proof.
+  intros o pre m H; induction H as [|l ls Hl _ IH]; cbn [map fold_left].
+  - reflexivity.
+  - rewrite read_step_pre by assumption. exact IH.
+Qed.
+
+(* ---- from bytes to lines -------------------------------------------------------- *)
+Lemma read_step_empty : forall o acc, read_step o acc (line_item []) = acc.
+Proof. intros o [[m cs]| |]; reflexivity. Qed.
+
+Lemma fold_lines_tail : forall o ls acc,
+  fold_left (read_step o) (map line_item (lines_tail ls)) acc =
+  fold_left (read_step o) (map line_item ls) acc.
+Proof.
+  intros o ls; induction ls as [|p r IH]; intros acc.
+  - reflexivity.
+  - destruct r as [|q r'].
+    + destruct p as [|c p'].
+      * cbn [lines_tail map fold_left]. rewrite read_step_empty. reflexivity.
+      * reflexivity.
+    + change (lines_tail (p :: q :: r')) with (p :: lines_tail (q :: r')).
+      cbn [map fold_left]. apply IH.
+Qed.
+
+Definition finish (t : term) (acc : outcome rstate) : outcome smatrix :=
+  match acc with
+  | Ok (m, _) => match t with TEOF => Ok m | TErr => Err end
+  | Err => Err
+  | Panic => Panic
+  end.
+
+Lemma read_ncbi_lines : forall o s t,
+  read_ncbi o s t =
+  finish t (fold_left (read_step o) (map line_item (split_on LF s)) (Ok ([], []))).
+Proof.
+  intros o s t. unfold read_ncbi, line_items.
+  change (map (fun p => if too_long p then ErrItem else Rec (drop_cr p)) (lines_tail (split_on LF s)))
+    with (map line_item (lines_tail (split_on LF s))).
+  rewrite fold_lines_tail. reflexivity.
+Qed.
+
+Lemma split_on_nolf : forall a, nolf a -> split_on LF a = [a].
+Proof.
+  induction a as [|c a IH]; intros H; cbn [split_on].
+  - reflexivity.
+  - inversion H; subst. rewrite IH by assumption.
+    destruct (c =? LF) eqn:E; [apply N.eqb_eq in E; contradiction | reflexivity].
+Qed.
+
+Lemma split_on_app_lf : forall a r, nolf a -> split_on LF (a ++ LF :: r) = a :: split_on LF r.
+Proof.
+  induction a as [|c a IH]; intros r H; cbn [app split_on].
+  - rewrite N.eqb_refl. reflexivity.
+  - inversion H; subst. rewrite IH by assumption.
+    destruct (c =? LF) eqn:E; [apply N.eqb_eq in E; contradiction | reflexivity].
+Qed.
+
+Lemma split_join_lines : forall ls nl, ls <> [] -> Forall nolf ls ->
+  split_on LF (join_lines ls nl) = ls ++ (if nl then [[]] else []).
+Proof.
+  unfold join_lines. induction ls as [|x ls IH]; intros nl Hne HF; [contradiction|].
+  inversion HF as [|? ? Hx HF']; subst. destruct ls as [|y ls'].
+  - cbn [join_with]. destruct nl.
+    + rewrite split_on_app_lf by assumption. reflexivity.
+    + rewrite app_nil_r. rewrite split_on_nolf by assumption. reflexivity.
+  - change (join_with [LF] (x :: y :: ls')) with (x ++ [LF] ++ join_with [LF] (y :: ls')).
+    rewrite <- !app_assoc. cbn [app]. rewrite split_on_app_lf by assumption.
+    rewrite IH by (auto; discriminate). reflexivity.
+Qed.
+
+Lemma read_join_lines : forall o ls nl t, ls <> [] -> Forall nolf ls ->
+  read_ncbi o (join_lines ls nl) t =
+  finish t (fold_left (read_step o) (map line_item ls) (Ok ([], []))).
+Proof.
+  intros o ls nl t Hne HF. rewrite read_ncbi_lines, split_join_lines by assumption.
+  destruct nl.
+  - rewrite map_app, fold_left_app. cbn [map fold_left]. rewrite read_step_empty. reflexivity.
+  - rewrite app_nil_r. reflexivity.
+Qed.
+
+(* ---- every layout line is LF-free ------------------------------------------------ *)
+Lemma comment_nolf : forall l, CommentOrEmpty l -> nolf l.
+Proof.
+  intros l [[->|[->|[r [-> Hr]]]] _].
+  - constructor.
+  - constructor; [discriminate | constructor].
+  - constructor; [discriminate | exact Hr].
+Qed.
+
+Lemma preline_nolf : forall l, PreLine l -> nolf l.
+Proof.
+  intros l [H|[H _]]; [apply comment_nolf; exact H | apply lws_nolf; exact H].
+Qed.
+
+Lemma body_nolf : forall o rows body, Body o rows body -> Forall nolf body.
+Proof.
+  intros o rows body H; induction H; constructor; auto.
+  - apply comment_nolf; assumption.
+  - eapply line_of_nolf; eassumption.
+Qed.
+
+(* the state after the pre-header lines, the header and the body *)
+Lemma read_layout_lines : forall o T pre hdr body,
+  Forall PreLine pre -> HeaderLine (t_cols T) hdr -> Body o (t_rows T) body -> rect T ->
+  fold_left (read_step o) (map line_item (pre ++ hdr :: body)) (Ok ([], [])) =
+  Ok (matrix_of T, map lab (t_cols T)).
+Proof.
+  intros o T pre hdr body Hpre Hh Hb Hr.
+  rewrite map_app, fold_left_app. rewrite read_pre by assumption.
+  cbn [map fold_left]. rewrite (read_step_header o (t_cols T)) by assumption.
+  destruct Hh as [Hne _].
+  rewrite (read_body o (t_cols T) (t_rows T)) by assumption. reflexivity.
+Qed.
+
+Lemma layout_lines_nolf : forall o T pre hdr body,
+  Forall PreLine pre -> HeaderLine (t_cols T) hdr -> Body o (t_rows T) body ->
+  Forall nolf (pre ++ hdr :: body).
+Proof.
+  intros o T pre hdr body Hpre [_ [_ HL]] Hb. apply Forall_app. split.
+  - eapply Forall_impl; [|exact Hpre]. apply preline_nolf.
+  - constructor; [eapply line_of_nolf; eassumption | eapply body_nolf; eassumption].
+Qed.
+
+Theorem read_ncbi_exact : forall o T L,
+  rect T -> TableLayout o T L -> read_ncbi o L TEOF = Ok (matrix_of T).
+Proof.
+  intros o T L Hr HL. destruct HL as [pre hdr body nl Hpre Hh Hb].
+  rewrite read_join_lines.
+  - rewrite (read_layout_lines o T) by assumption. reflexivity.
+  - destruct pre; discriminate.
+  - eapply layout_lines_nolf; eassumption.
+Qed.
+
+(* a read fault after a well-formed table is reported *)
+Theorem read_ncbi_fault : forall o T L,
+  rect T -> TableLayout o T L -> read_ncbi o L TErr = Err.
+Proof.
+  intros o T L Hr HL. destruct HL as [pre hdr body nl Hpre Hh Hb].
+  rewrite read_join_lines.
+  - rewrite (read_layout_lines o T) by assumption. reflexivity.
+  - destruct pre; discriminate.
+  - eapply layout_lines_nolf; eassumption.
+Qed.
+
+(* ---- the pairs of a table with distinct labels ------------------------------------ *)
+Lemma row_pairs_keys : forall cols r,
+  length (snd r) = length cols ->
+  map fst (row_pairs cols r) = map (fun c => (lab (fst r), lab c)) cols.
+Proof.
+  intros cols [r xs]; cbn [fst snd]. unfold row_pairs; cbn [fst snd].
+  revert xs; induction cols as [|c cols IH]; intros xs H.
+  - reflexivity.
+  - destruct xs as [|x xs]; [discriminate|]. cbn [combine map fst snd].
+    f_equal. apply IH. cbn in H; congruence.
+Qed.
+
+Lemma nodup_app : forall {A} (a b : list A),
+  NoDup a -> NoDup b -> (forall x, In x a -> In x b -> False) -> NoDup (a ++ b).
+Proof.
+  intros A a b Ha Hb Hd; induction Ha as [|x a Hx Ha IH]; cbn [app].
+  - exact Hb.
+  - constructor.
+    + rewrite in_app_iff. intros [I|I]; [contradiction | apply (Hd x); [left; reflexivity | exact I]].
+    + apply IH. intros y I1 I2. apply (Hd y); [right; exact I1 | exact I2].
+Qed.
+
+Lemma pairs_keys_nodup : forall T, rect T ->
+  NoDup (map lab (t_cols T)) -> NoDup (map (fun r => lab (fst r)) (t_rows T)) ->
+  NoDup (map fst (pairs T)).
+Proof.
+  intros [cols rows]; unfold rect, pairs; cbn [t_cols t_rows]. intros HR HC HRows.
+  induction rows as [|r rows IH]; cbn [flat_map map].
+  - constructor.
+  - inversion HR as [|? ? Hlen HR']; subst. cbn [map] in HRows.
+    inversion HRows as [|? ? Hnotin HRows']; subst.
+    rewrite map_app. apply nodup_app.
+    + rewrite row_pairs_keys by assumption.
+      clear - HC. induction cols as [|c cols IHc]; cbn [map] in *.
+      * constructor.
+      * inversion HC; subst. constructor; auto.
+        rewrite in_map_iff. intros [c' [E I]]. inversion E.
+        apply H1. rewrite <- H0. apply in_map. exact I.
+    + apply IH; assumption.
+    + intros k I1 I2. rewrite row_pairs_keys in I1 by assumption.
+      apply in_map_iff in I1. destruct I1 as [c [<- _]].
+      apply in_map_iff in I2. destruct I2 as [[k' x] [E I2]]. cbn [fst] in E. subst k'.
+      apply in_flat_map in I2. destruct I2 as [r' [Ir' I2]].
+      assert (Hr' : length (snd r') = length cols).
+      { rewrite Forall_forall in HR'. apply HR'; assumption. }
+      apply (in_map fst) in I2. rewrite row_pairs_keys in I2 by assumption.
+      cbn [fst] in I2. apply in_map_iff in I2. destruct I2 as [c' [E _]].
+      inversion E. apply Hnotin. rewrite <- H0.
+      apply (in_map (fun r => lab (fst r))) in Ir'. exact Ir'.
+Qed.
+
+(* with distinct row labels and distinct column labels (after '*' -> Gap), the
+   matrix a table denotes holds exactly the table's pairs *)
+Theorem matrix_of_table : forall T, rect T ->
+  NoDup (map lab (t_cols T)) -> NoDup (map (fun r => lab (fst r)) (t_rows T)) ->
+  keys_unique (matrix_of T)
+  /\ forall k x, mlookup k (matrix_of T) = Some x <-> In (k, x) (pairs T).
+Proof.
+  intros T HR HC HRows. unfold matrix_of.
+  apply matrix_of_entries_lookup. apply pairs_keys_nodup; assumption.
+Qed.
